@@ -27,3 +27,117 @@ Theorem C10_pool_outputs_permutation : forall (P K S O : Type) (key : P -> K) (k
   Permutation (outs P K S O x) (snd (run P K S O key keqb lstep s0 (dispatched P es))).
 Proof. exact pool_outputs_permutation. Qed.
 Print Assumptions C10_pool_outputs_permutation.
+
+(* ====================================================================================================
+   CONCRETE INSTANCES (TLS and TCP worker pools).  Model/PoolConcrete.v is the transition system above with
+   the workers running the packet-level models of the real analyzers (Model/TlsAnalyzer.v tls_packet_step,
+   Model/TcpAnalyzer.v tcp_packet_step) on private tables of capacity capw, and the dispatcher using the
+   model of the real dispatch hash (Model/Hash.v tls_worker / tcp_worker over an arbitrary hasher SipH).
+   pool_dom f  = the frames the theorems speak about: the analyzer reports endpoints for f (TCP segment with
+                 a TCP view), Ethernet/raw framing with the announced IP version (c18_dom), outside the open
+                 class raw_as_ethernet.  Frames outside (e.g. the TLS hash returns None => the pool discards
+                 them, or BSD-loopback framing) are EXCLUDED BY HYPOTHESIS.
+   *_pool_withinb = when worker w takes packet p, p fits w's table (no eviction in any worker);
+   *_within_capacityb caps = the sequential analyzer with capacity caps does not evict on the dispatched trace.
+   TTL expiry, queue overflow and the OS schedule are outside (see props/C10.json).
+   Proofs: Proofs/PoolInstances.v (generic pool simulation + instances), Proofs/FrameBridge.v (Model/Pnet.v and
+   Model/RawFrame.v decode frames identically, so the analyzers' keys are functions of the C18 identity). *)
+From Coq Require Import ZArith.
+From HN Require Import Model.Hash Model.TlsReader Model.TlsAnalyzer Model.TcpAnalyzer Model.PoolConcrete.
+From HN Require Model.Uptime.
+From HN Require Import Proofs.KeyedExamples Proofs.PoolInstances Proofs.PoolExamples.
+Open Scope N_scope.
+
+(* (1) the real dispatch is a function of the analyzer's key: TLS flow key = directed 4-tuple *)
+Theorem C10_tls_dispatch_by_key : forall (SipH : ident -> N) (n : N) (p q : bytes),
+  0 < n -> pool_dom p = true -> pool_dom q = true -> tls_key p = tls_key q ->
+  tls_worker SipH n p = tls_worker SipH n q /\ exists w, tls_worker SipH n p = Some w /\ w < n.
+Proof. exact tls_dispatch_by_key. Qed.
+Check C10_tls_dispatch_by_key : forall (SipH : ident -> N) (n : N) (p q : bytes),
+  0 < n -> pool_dom p = true -> pool_dom q = true -> tls_key p = tls_key q ->
+  tls_worker SipH n p = tls_worker SipH n q /\ exists w, tls_worker SipH n p = Some w /\ w < n.
+Print Assumptions C10_tls_dispatch_by_key.
+
+(* TCP: the pool shards by SOURCE ADDRESS; the tracker key (connection, role) determines the source address,
+   so the shard is a function of the (finer) key and the pool theorem applies at the tracker key itself *)
+Theorem C10_tcp_dispatch_by_key : forall (SipH : ident -> N) (n : N) (p q : tcp_event),
+  0 < n -> pool_dom (fst p) = true -> pool_dom (fst q) = true -> tcp_pool_key p = tcp_pool_key q ->
+  tcp_worker SipH n (fst p) = tcp_worker SipH n (fst q) /\ exists w, tcp_worker SipH n (fst p) = Some w /\ w < n.
+Proof. exact tcp_dispatch_by_key. Qed.
+Check C10_tcp_dispatch_by_key : forall (SipH : ident -> N) (n : N) (p q : tcp_event),
+  0 < n -> pool_dom (fst p) = true -> pool_dom (fst q) = true -> tcp_pool_key p = tcp_pool_key q ->
+  tcp_worker SipH n (fst p) = tcp_worker SipH n (fst q) /\ exists w, tcp_worker SipH n (fst p) = Some w /\ w < n.
+Print Assumptions C10_tcp_dispatch_by_key.
+
+(* (2) TLS pool = sequential TLS analyzer: every schedule that ends with empty queues delivers, per flow and
+   in order, and as a multiset, the results of the sequential concrete analyzer on the dispatched trace *)
+Theorem C10_tls_pool_concrete : forall (SipH : ident -> N) (n capw caps : N) (es : list (ev bytes)),
+  let x := tls_pool_run SipH n capw es in
+  0 < n -> (forall f, In f (dispatched bytes es) -> pool_dom f = true) ->
+  tls_pool_withinb SipH n capw es = true ->
+  tls_within_capacityb caps [] (dispatched bytes es) = true ->
+  (forall w, cq bytes N tls_out tls_state x w = []) ->
+  (forall k, proj N tls_out N.eqb k (couts bytes N tls_out tls_state x)
+             = proj N tls_out N.eqb k (tls_results caps [] (dispatched bytes es)))
+  /\ Permutation (couts bytes N tls_out tls_state x) (tls_results caps [] (dispatched bytes es)).
+Proof. exact tls_pool_concrete. Qed.
+Check C10_tls_pool_concrete : forall (SipH : ident -> N) (n capw caps : N) (es : list (ev bytes)),
+  let x := tls_pool_run SipH n capw es in
+  0 < n -> (forall f, In f (dispatched bytes es) -> pool_dom f = true) ->
+  tls_pool_withinb SipH n capw es = true ->
+  tls_within_capacityb caps [] (dispatched bytes es) = true ->
+  (forall w, cq bytes N tls_out tls_state x w = []) ->
+  (forall k, proj N tls_out N.eqb k (couts bytes N tls_out tls_state x)
+             = proj N tls_out N.eqb k (tls_results caps [] (dispatched bytes es)))
+  /\ Permutation (couts bytes N tls_out tls_state x) (tls_results caps [] (dispatched bytes es)).
+Print Assumptions C10_tls_pool_concrete.
+
+(* satisfiable: two workers, the sibling connections of C07_tls_example on different workers, A's second
+   segment dispatched after B was analysed; delivery order differs from the sequential order, A is reported once *)
+Example C10_tls_pool_example :
+  let x := tls_pool_run src_hash 2 8 tls_sched in
+  0 < 2 /\ (forall f, In f (dispatched bytes tls_sched) -> pool_dom f = true) /\
+  tls_pool_withinb src_hash 2 8 tls_sched = true /\
+  tls_within_capacityb 8 [] (dispatched bytes tls_sched) = true /\
+  (forall w, cq bytes N tls_out tls_state x w = []) /\
+  tls_wk src_hash 2 tlsA1 = 1%nat /\ tls_wk src_hash 2 tlsB1 = 0%nat /\
+  map is_report (map snd (couts bytes N tls_out tls_state x)) = [true; false; true] /\
+  map is_report (proj N tls_out N.eqb tls_kA (couts bytes N tls_out tls_state x)) = [false; true].
+Proof. exact tls_pool_example. Qed.
+
+(* (4) TCP pool = sequential TCP analyzer, at the tracker key (connection, role); results tagged with
+   tcp_pool_key (= tcp_key on every frame process_frame accepts); the untagged sequential results are tcp_run's *)
+Theorem C10_tcp_pool_concrete :
+  forall (SipH : ident -> N) (db : list (bytes * list N)) (n capw caps : N) (es : list (ev tcp_event)),
+  let x := tcp_pool_run SipH db n capw es in
+  0 < n -> (forall e, In e (dispatched tcp_event es) -> pool_dom (fst e) = true) ->
+  tcp_pool_withinb SipH db n capw es = true ->
+  tcp_within_capacityb db caps [] (dispatched tcp_event es) = true ->
+  (forall w, cq tcp_event Uptime.connection_key tcp_result tcp_state x w = []) ->
+  (forall k, proj Uptime.connection_key tcp_result Uptime.key_eqb k (couts tcp_event Uptime.connection_key tcp_result tcp_state x)
+             = proj Uptime.connection_key tcp_result Uptime.key_eqb k (tcp_results_pk db caps [] (dispatched tcp_event es)))
+  /\ Permutation (couts tcp_event Uptime.connection_key tcp_result tcp_state x)
+                 (tcp_results_pk db caps [] (dispatched tcp_event es)).
+Proof. exact tcp_pool_concrete. Qed.
+Check C10_tcp_pool_concrete :
+  forall (SipH : ident -> N) (db : list (bytes * list N)) (n capw caps : N) (es : list (ev tcp_event)),
+  let x := tcp_pool_run SipH db n capw es in
+  0 < n -> (forall e, In e (dispatched tcp_event es) -> pool_dom (fst e) = true) ->
+  tcp_pool_withinb SipH db n capw es = true ->
+  tcp_within_capacityb db caps [] (dispatched tcp_event es) = true ->
+  (forall w, cq tcp_event Uptime.connection_key tcp_result tcp_state x w = []) ->
+  (forall k, proj Uptime.connection_key tcp_result Uptime.key_eqb k (couts tcp_event Uptime.connection_key tcp_result tcp_state x)
+             = proj Uptime.connection_key tcp_result Uptime.key_eqb k (tcp_results_pk db caps [] (dispatched tcp_event es)))
+  /\ Permutation (couts tcp_event Uptime.connection_key tcp_result tcp_state x)
+                 (tcp_results_pk db caps [] (dispatched tcp_event es)).
+Print Assumptions C10_tcp_pool_concrete.
+
+Example C10_tcp_pool_example :
+  let x := tcp_pool_run src_hash [] 2 8 tcp_sched in
+  0 < 2 /\ (forall e, In e (dispatched tcp_event tcp_sched) -> pool_dom (fst e) = true) /\
+  tcp_pool_withinb src_hash [] 2 8 tcp_sched = true /\
+  tcp_within_capacityb [] 8 [] (dispatched tcp_event tcp_sched) = true /\
+  (forall w, cq tcp_event Uptime.connection_key tcp_result tcp_state x w = []) /\
+  tcp_wk src_hash 2 tcpA1 = 1%nat /\ tcp_wk src_hash 2 tcpB1 = 0%nat /\
+  map up_freq (map snd (couts tcp_event Uptime.connection_key tcp_result tcp_state x)) = [None; None; Some 1000%Z; Some 100%Z].
+Proof. exact tcp_pool_example. Qed.
